@@ -148,6 +148,7 @@ func decodeAlone(frame []byte, level slog.Level) (b baseline, panicked string) {
 		return c, c.panicked
 	}
 	baseMu.Unlock()
+	rt.GlobalSteps.Add(1) // a fresh-process decode is progress, not a stall
 	cmd := exec.Command(os.Args[0], "-test.run", "^TestVsim$", "-test.count", "1")
 	cmd.Env = append(os.Environ(), "VSIM_DECODE_ONE="+hex.EncodeToString(frame), "VSIM_DECODE_LEVEL="+strconv.Itoa(int(level)))
 	out, err := cmd.Output()
